@@ -24,7 +24,7 @@ def build_case(cid, rng):
     SA = ", s" if with_lt else ""
     OPT = ", ?Send" if no_send else ""
     links = []   # kind per link
-    kinds = ["fn", "fn", "mod", "leaf_trait", "inversion"]
+    kinds = ["fn", "fn", "mod", "leaf_trait", "inversion", "concrete"] + (["impl_future"] if is_async else [])
     L, GT = [], []
     aw = ".await" if is_async else ""
     asy = "async " if is_async else ""
@@ -45,6 +45,16 @@ def build_case(cid, rng):
             L.append("#[::entrait::entrait(pub L%d%s)] /*@inv%d*/\n%sfn l%d%s(deps: &%s, x: u64%s) -> u64 %s" % (i, OPT, i, asy, i, G, bound, SP, body_t))
         elif kind == "mod":
             L.append("#[::entrait::entrait(pub L%d%s)] /*@inv%d*/\npub mod lm%d { use super::*; pub %sfn l%d%s(deps: &%s, x: u64%s) -> u64 %s }" % (i, OPT, i, i, asy, i, G, bound, SP, body_t))
+        elif kind == "concrete":
+            # concrete dependency: the generated leaf trait is itself entraited (nested expansion) for Impl<T>
+            L.append("#[::entrait::entrait(pub L%d%s)] /*@inv%d*/\n%sfn l%d%s(deps: &App, x: u64%s) -> u64 { let deps2 = ::entrait::Impl::new(*deps); let deps = &deps2; %s%s %s }" % (
+                i, OPT, i, asy, i, G, SP, boxes, yld, call_next_t))
+        elif kind == "impl_future":
+            # hand-desugared async method: `fn .. -> impl Future`, statically delegated to T
+            fut = "impl ::core::future::Future<Output = u64>%s" % ("" if no_send else " + ::core::marker::Send")
+            L.append("#[::entrait::entrait(delegate_by = Self%s)] /*@inv%d*/\npub trait L%d { fn l%d%s(&self, x: u64%s) -> %s; }" % (OPT, i, i, i, G, SP, fut))
+            L.append("impl L%d for App { fn l%d%s(&self, x: u64%s) -> %s { async move { let deps = ::entrait::Impl::new(App); %s%s %s } } }" % (
+                i, i, G, SP, fut, boxes, yld, call_next_t))
         elif kind == "leaf_trait":
             # hand-written trait, static delegation to T (= the app itself implements it)
             L.append("#[::entrait::entrait(delegate_by = Self%s)] /*@inv%d*/\npub trait L%d { %sfn l%d%s(&self, x: u64%s) -> u64; }" % (OPT, i, i, asy, i, G, SP))
@@ -55,7 +65,7 @@ def build_case(cid, rng):
             L.append("#[::entrait::entrait(L%dImpl, delegate_by = DelegateL%d%s)] /*@inv%d*/\npub trait L%d { %sfn l%d%s(&self, x: u64%s) -> u64; }" % (i, i, OPT, i, i, asy, i, G, SP))
             L.append("pub struct T%d;\n#[::entrait::entrait] /*@blk%d*/\nimpl L%dImpl for T%d { pub %sfn l%d%s(deps: &%s, x: u64%s) -> u64 %s }" % (i, i, i, i, asy, i, G, bound, SP, body_t))
             L.append("impl DelegateL%d<Self> for App { type Target = T%d; }" % (i, i))
-        if kind == "leaf_trait":
+        if kind in ("leaf_trait", "concrete", "impl_future"):
             GT.append("%sfn g%d<%sD>(deps: &D, x: u64%s) -> u64 { let deps2 = ::entrait::Impl::new(App); let deps = &deps2; %s%s %s }" % (asy, i, "'a, " if with_lt else "", SP, boxes, yld, call_next_g))
         else:
             GT.append("%sfn g%d<%sD>(deps: &D, x: u64%s) -> u64 %s" % (asy, i, "'a, " if with_lt else "", SP, body_g))
